@@ -798,3 +798,469 @@ Proof.
         by (apply scan_to_cdata; assumption).
       rewrite (Hrun fuel T HT). destruct (p_content fuel T) as [[l r]|]; reflexivity.
 Qed.
+(** ** [40] [44] tags: the rendered attribute list is read back by [p_atts] *)
+Lemma skipS_run a r : forallb isS a = true -> match r with [] => True | x :: _ => isS x = false end ->
+  skipS (a ++ r) = r.
+Proof.
+  intros Ha Hr. unfold skipS. destruct r as [|x r].
+  - rewrite app_nil_r, (span_all_nil _ a Ha). reflexivity.
+  - rewrite (span_all_stop _ a x r Ha Hr). reflexivity.
+Qed.
+
+Lemma S0_S c p : forallb isS (S0 c p) = true.
+Proof. apply ws_run_S. Qed.
+Lemma S1_S c p : forallb isS (S1 c p) = true.
+Proof. apply ws_run_S. Qed.
+Lemma S1_ne c p : S1 c p <> [].
+Proof. unfold S1. cbn [ws_run]. discriminate. Qed.
+
+Lemma name_head nm : is_Name nm = true -> exists x t, nm = x :: t /\ eval spec_NameStartChar x = true.
+Proof. unfold is_Name. destruct nm as [|x t]; [discriminate|]. intros H. apply andb_true_iff in H. exists x, t. tauto. Qed.
+
+Lemma nsc_facts x : eval spec_NameStartChar x = true ->
+  isS x = false /\ N.eqb x c_gt = false /\ N.eqb x c_slash = false /\ N.eqb x c_eq = false.
+Proof.
+  intros H. repeat split.
+  - destruct (isS x) eqn:E; [|reflexivity]. destruct (isS_cases x E) as [-> | [-> | [-> | ->]]]; discriminate.
+  - destruct (N.eqb_spec x c_gt) as [->|]; [discriminate|reflexivity].
+  - destruct (N.eqb_spec x c_slash) as [->|]; [discriminate|reflexivity].
+  - destruct (N.eqb_spec x c_eq) as [->|]; [discriminate|reflexivity].
+Qed.
+
+Lemma att_literal_head c p v : exists q t, att_literal c p v = q :: t /\ isQuote q = true.
+Proof. unfold att_literal. destruct (N.eqb _ _); eexists; eexists; split; reflexivity. Qed.
+
+Lemma isQuote_not_S q : isQuote q = true -> isS q = false.
+Proof. unfold isQuote. intros H. apply orb_true_iff in H. destruct H as [H|H]; apply N.eqb_eq in H; subst q; reflexivity. Qed.
+
+(** [25] Eq as rendered *)
+Lemma p_Eq_render c p r : match r with [] => True | x :: _ => isS x = false end -> p_Eq (Eq_ c p ++ r) = Some r.
+Proof.
+  intros Hr. unfold Eq_, p_Eq. rewrite <- app_assoc. cbn [app].
+  assert (E1 : skipS (S0 c (0%N :: p) ++ c_eq :: S0 c (1%N :: p) ++ r) = c_eq :: S0 c (1%N :: p) ++ r)
+    by (apply skipS_run; [apply S0_S|reflexivity]).
+  assert (E2 : skipS (S0 c (1%N :: p) ++ r) = r) by (apply skipS_run; [apply S0_S|exact Hr]).
+  unfold str, char in *. rewrite E1. rewrite N.eqb_refl. now rewrite E2.
+Qed.
+
+(** general fuel for a literal *)
+Lemma att_literal_reads_back_fuel c p v : items_ok v = true ->
+  exists q, quote q /\ forall rest extra,
+    p_AttValue (S (items_size v) + extra) (att_literal c p v ++ rest) = Some (items_pieces q c (1%N :: p) 0 v, rest).
+Proof.
+  intros Hok. unfold att_literal.
+  set (q := if (c (0%N :: p) mod 2 =? 0)%N then c_quot else c_apos).
+  assert (Hq : quote q) by (unfold q, quote; destruct (N.eqb _ _); auto).
+  exists q. split; [exact Hq|]. intros rest extra. cbn [app]. unfold p_AttValue.
+  assert (Hiq : isQuote q = true) by (destruct Hq as [-> | ->]; reflexivity). rewrite Hiq.
+  rewrite <- app_assoc. cbn [app].
+  replace (S (items_size v) + extra) with (items_size v + S extra) by lia.
+  etransitivity; [exact (lit_items_read q c (1%N :: p) Hq v 0%N (q :: rest) (S extra) Hok)|].
+  cbn [p_pieces]. rewrite N.eqb_refl. cbn [bind]. now rewrite app_nil_r.
+Qed.
+
+Definition att_ok (a : str * list aitem) : bool := is_Name (fst a) && items_ok (snd a).
+
+Definition render_att (c : choices) (p : list N) (ia : nat * (str * list aitem)) : str :=
+  let q := N.of_nat (fst ia) :: 1%N :: p in
+  S1 c (0%N :: q) ++ fst (snd ia) ++ Eq_ c (1%N :: q) ++ att_literal c (2%N :: q) (snd (snd ia)).
+
+Fixpoint atts_size (l : list (nat * (str * list aitem))) : nat :=
+  match l with [] => 1 | ia :: t => S (S (items_size (snd (snd ia)))) + atts_size t end.
+
+(** [closing] is ">" or "/>" *)
+Lemma p_atts_render c p : forall l,
+  forallb (fun ia => att_ok (snd ia)) l = true ->
+  exists parsed, map fst parsed = map (fun ia => fst (snd ia)) l /\
+    forall closing e rest extra,
+    (closing = [c_gt] /\ e = false) \/ (closing = s_empty_close /\ e = true) ->
+    p_atts (atts_size l + extra) (flat_map (render_att c p) l ++ S0 c (2%N :: p) ++ closing ++ rest) = Some (parsed, e, rest).
+Proof.
+  induction l as [|ia l IH]; intros Hok.
+  - exists []. split; [reflexivity|]. intros closing e rest extra Hcl. cbn [flat_map app atts_size Nat.add p_atts].
+    rewrite (skipS_run (S0 c (2%N :: p)) (closing ++ rest) (S0_S _ _))
+      by (destruct Hcl as [[-> _]|[-> _]]; reflexivity).
+    destruct Hcl as [[-> ->]|[-> ->]]; reflexivity.
+  - cbn [forallb] in Hok. apply andb_true_iff in Hok. destruct Hok as [Ha Hl].
+    unfold att_ok in Ha. apply andb_true_iff in Ha. destruct Ha as [Hn Hv].
+    destruct ia as [k [nm v]]. cbn [fst snd] in *.
+    pose proof Hn as Hname. destruct (name_head nm Hname) as (x & t & -> & Hx).
+    destruct (nsc_facts x Hx) as (HxS & Hxgt & Hxsl & Hxeq).
+    set (q := N.of_nat k :: 1%N :: p).
+    destruct (IH Hl) as (parsed & Hp1 & Hp2).
+    destruct (att_literal_head c (2%N :: q) v) as (qc & lt & Elit & Hqc).
+    destruct (att_literal_reads_back_fuel c (2%N :: q) v Hv) as (q' & Hq' & Hval).
+    exists (((x :: t), items_pieces q' c (1%N :: 2%N :: q) 0 v) :: parsed). split; [cbn [map fst]; now rewrite Hp1|].
+    intros closing e rest extra Hcl.
+    specialize (Hp2 closing e rest (extra + S (items_size v)) Hcl).
+    set (R := flat_map (render_att c p) l ++ S0 c (2%N :: p) ++ closing ++ rest) in *.
+    specialize (Hval R (atts_size l + extra)).
+    cbn [flat_map atts_size]. unfold render_att at 1. cbn [fst snd]. fold q.
+    rewrite <- !app_assoc. fold R.
+    replace (S (S (items_size v)) + atts_size l + extra) with (S (S (items_size v) + (atts_size l + extra))) by lia.
+    cbn [p_atts].
+    assert (Hskip : skipS (S1 c (0%N :: q) ++ (x :: t) ++ Eq_ c (1%N :: q) ++ att_literal c (2%N :: q) v ++ R)
+                    = (x :: t) ++ Eq_ c (1%N :: q) ++ att_literal c (2%N :: q) v ++ R)
+      by (apply skipS_run; [apply S1_S|exact HxS]).
+    assert (HpS : exists r', p_S (S1 c (0%N :: q) ++ (x :: t) ++ Eq_ c (1%N :: q) ++ att_literal c (2%N :: q) v ++ R) = Some r').
+    { eexists. apply (p_S_run (S1 c (0%N :: q))); [apply S1_ne|apply S1_S|exact HxS]. }
+    destruct HpS as [r' HpS].
+    assert (En : p_Name ((x :: t) ++ Eq_ c (1%N :: q) ++ att_literal c (2%N :: q) v ++ R)
+                 = Some (x :: t, Eq_ c (1%N :: q) ++ att_literal c (2%N :: q) v ++ R)).
+    { apply p_Name_app; [exact Hname|]. unfold Eq_. rewrite <- app_assoc.
+      destruct (S0 c (0%N :: 1%N :: q)) as [|w ws] eqn:Ew; cbn [app stops_name]; [reflexivity|].
+      apply isS_not_namechar. pose proof (S0_S c (0%N :: 1%N :: q)) as HS. rewrite Ew in HS. cbn [forallb] in HS.
+      apply andb_true_iff in HS. tauto. }
+    assert (HEq : p_Eq (Eq_ c (1%N :: q) ++ att_literal c (2%N :: q) v ++ R) = Some (att_literal c (2%N :: q) v ++ R)).
+    { apply p_Eq_render. rewrite Elit. cbn [app]. now apply isQuote_not_S. }
+    assert (Hfuel : S (items_size v) + (atts_size l + extra) = atts_size l + (extra + S (items_size v))) by lia.
+    cbn [app] in *. unfold str, char in *. rewrite Hskip. rewrite Hxgt, Hxsl. rewrite HpS. rewrite En. cbn [bind].
+    rewrite HEq. cbn [bind]. rewrite Hval. cbn [bind]. rewrite Hfuel, Hp2. reflexivity.
+Qed.
+
+(** ** [16] PI body with its content, [15] comment body: steps of [p_content] *)
+Lemma pi_body_render c p t d rest : pi_ok t d = true ->
+  p_pi_body (t ++ match d with None => [] | Some x => S1 c p ++ x end ++ s_pi_close ++ rest) = Some (t, d, rest).
+Proof.
+  intros H. unfold pi_ok in H.
+  apply andb_true_iff in H. destruct H as [H Hd]. apply andb_true_iff in H. destruct H as [Ht _].
+  unfold is_PITarget in Ht. apply andb_true_iff in Ht. destruct Ht as [Hn Hx]. apply negb_true_iff in Hx.
+  unfold p_pi_body. destruct d as [x|].
+  - apply andb_true_iff in Hd. destruct Hd as [Hd Hh]. apply andb_true_iff in Hd. destruct Hd as [Hd Hp].
+    apply andb_true_iff in Hd. destruct Hd as [Hc _]. apply negb_true_iff in Hp.
+    rewrite <- !app_assoc.
+    pose proof (S1_ne c p) as Hne. pose proof (S1_S c p) as Hall.
+    assert (Hhead : exists w ws, S1 c p = w :: ws /\ isS w = true).
+    { destruct (S1 c p) as [|w ws]; [now elim Hne|]. cbn [forallb] in Hall. apply andb_true_iff in Hall. exists w, ws. tauto. }
+    destruct Hhead as (w & ws & Ew & Hw).
+    assert (En : p_Name (t ++ S1 c p ++ x ++ s_pi_close ++ rest) = Some (t, S1 c p ++ x ++ s_pi_close ++ rest)).
+    { apply p_Name_app; [exact Hn|]. rewrite Ew. cbn [app stops_name]. now apply isS_not_namechar. }
+    assert (Hst : strip s_pi_close (S1 c p ++ x ++ s_pi_close ++ rest) = None).
+    { rewrite Ew. cbn [app]. unfold s_pi_close. cbn [strip]. destruct (isS_cases w Hw) as [-> | [-> | [-> | ->]]]; reflexivity. }
+    assert (HS : p_S (S1 c p ++ x ++ s_pi_close ++ rest) = Some (x ++ s_pi_close ++ rest)).
+    { apply p_S_run; [exact Hne|exact Hall|]. destruct x as [|y x]; [reflexivity|]. cbn [app]. now apply negb_true_iff in Hh. }
+    pose proof (scan_to_pi_close x rest Hc Hp) as Hsc.
+    unfold str, char in *. rewrite En. cbn [bind]. rewrite Hx, Hst, HS. cbn [bind].
+    rewrite Hsc. reflexivity.
+  - cbn [app].
+    assert (En : p_Name (t ++ s_pi_close ++ rest) = Some (t, s_pi_close ++ rest)).
+    { apply p_Name_app; [exact Hn|]. reflexivity. }
+    unfold str, char in *. rewrite En. cbn [bind]. rewrite Hx. rewrite strip_app. reflexivity.
+Qed.
+
+Lemma pc_comment fuel s X : comment_ok s = true ->
+  p_content (S fuel) (render_comment s ++ X) = bind (p_content fuel X) (fun '(l, r) => Some (XComment s :: l, r)).
+Proof.
+  intros H. unfold comment_ok in H.
+  apply andb_true_iff in H. destruct H as [H He]. apply andb_true_iff in H. destruct H as [H Hd].
+  apply andb_true_iff in H. destruct H as [Hc _]. apply negb_true_iff in Hd, He.
+  pose proof (comment_body_render (length s) s (le_n _) Hc Hd He X) as Hb.
+  unfold render_comment. rewrite <- !app_assoc. unfold s_comment_open. cbn [app p_content].
+  change (N.eqb 60 c_lt) with true. cbv iota.
+  change (starts s_etag_open (60%N :: 33%N :: 45%N :: 45%N :: s ++ s_comment_close ++ X)) with false. cbv iota.
+  change (strip s_comment_open (60%N :: 33%N :: 45%N :: 45%N :: s ++ s_comment_close ++ X)) with (Some (s ++ s_comment_close ++ X)).
+  cbv iota. unfold str, char in *. rewrite Hb. cbn [bind]. destruct (p_content fuel X) as [[l r]|]; reflexivity.
+Qed.
+
+Lemma pc_pi fuel c p t d X : pi_ok t d = true ->
+  p_content (S fuel) (render_pi c p t d ++ X) = bind (p_content fuel X) (fun '(l, r) => Some (XPI t d :: l, r)).
+Proof.
+  intros H. pose proof (pi_body_render c p t d X H) as Hb.
+  unfold render_pi. rewrite <- !app_assoc. unfold s_pi_open. cbn [app p_content].
+  change (N.eqb 60 c_lt) with true. cbv iota.
+  set (Y := t ++ match d with None => [] | Some x => S1 c p ++ x end ++ s_pi_close ++ X) in *.
+  change (starts s_etag_open (60%N :: 63%N :: Y)) with false. cbv iota.
+  change (strip s_comment_open (60%N :: 63%N :: Y)) with (@None str).
+  change (strip s_cdata_open (60%N :: 63%N :: Y)) with (@None str).
+  change (strip s_pi_open (60%N :: 63%N :: Y)) with (Some Y).
+  cbv iota. unfold str, char in *. rewrite Hb. cbn [bind]. destruct (p_content fuel X) as [[l r]|]; reflexivity.
+Qed.
+
+Lemma pc_entref fuel nm X : is_Name nm = true ->
+  p_content (S fuel) (entity_ref nm ++ X) = bind (p_content fuel X) (fun '(l, r) => Some (XEntRef nm :: l, r)).
+Proof.
+  intros H. unfold entity_ref. cbn [app]. rewrite <- app_assoc. cbn [app].
+  exact (pc_ref fuel _ _ _ (p_ref_entity nm X H)).
+Qed.
+
+(** ** [39] [43] elements and content *)
+Fixpoint syn_ok (x : anode) : bool :=
+  match x with
+  | AText s => all_chars s
+  | ARef nm => is_Name nm
+  | AComment s => comment_ok s
+  | API t d => pi_ok t d
+  | AElem nm atts kids => is_Name nm && forallb att_ok atts && forallb syn_ok kids && no_adjacent_text kids
+  end.
+
+Fixpoint render_kids (c : choices) (p : list N) (i : N) (l : list anode) : str :=
+  match l with [] => [] | y :: t => render_node c (i :: 5%N :: p) y ++ render_kids c p (i + 1) t end.
+
+Definition render_open (c : choices) (p : list N) (nm : str) (atts : list (str * list aitem)) : str :=
+  c_lt :: nm ++ flat_map (render_att c p) (permute c (0%N :: p) 0 (combine (seq 0 (length atts)) atts) []) ++ S0 c (2%N :: p).
+
+Lemma kids_fix c p : forall l i,
+  (fix go (i : N) (l : list anode) : str :=
+     match l with [] => [] | y :: t => render_node c (i :: 5%N :: p) y ++ go (i + 1)%N t end) i l = render_kids c p i l.
+Proof. induction l as [|y t IH]; intros i; [reflexivity|]. cbn [render_kids]. now rewrite <- IH. Qed.
+
+Lemma render_node_elem c p nm atts kids : render_node c p (AElem nm atts kids) =
+  match kids with
+  | [] => if (c (3%N :: p) mod 2 =? 0)%N then render_open c p nm atts ++ s_empty_close
+          else render_open c p nm atts ++ [c_gt] ++ s_etag_open ++ nm ++ S0 c (4%N :: p) ++ [c_gt]
+  | _ => render_open c p nm atts ++ [c_gt] ++ render_kids c p 0 kids ++ s_etag_open ++ nm ++ S0 c (4%N :: p) ++ [c_gt]
+  end.
+Proof.
+  cbn [render_node]. destruct kids as [|y t]; [reflexivity|].
+  rewrite <- (kids_fix c p (y :: t) 0%N). reflexivity.
+Qed.
+
+(** permutations keep the attribute conditions *)
+Lemma forallb_insert_at {A} (P : A -> bool) n x l : forallb P (insert_at n x l) = (P x && forallb P l)%bool.
+Proof.
+  revert l; induction n as [|n IH]; intros l; [reflexivity|]. destruct l as [|y t]; cbn [insert_at forallb].
+  - reflexivity.
+  - rewrite IH. destruct (P x), (P y); reflexivity.
+Qed.
+
+Lemma forallb_permute {A} (P : A -> bool) c p : forall l i acc,
+  forallb P (permute c p i l acc) = (forallb P l && forallb P acc)%bool.
+Proof.
+  induction l as [|x t IH]; intros i acc; cbn [permute forallb]; [reflexivity|].
+  rewrite IH, forallb_insert_at. destruct (P x), (forallb P t), (forallb P acc); reflexivity.
+Qed.
+
+Lemma forallb_combine_snd {A B} (P : B -> bool) : forall (s : list A) (l : list B),
+  forallb P l = true -> forallb (fun ia => P (snd ia)) (combine s l) = true.
+Proof.
+  induction s as [|a s IH]; intros l H; [reflexivity|]. destruct l as [|b l]; [reflexivity|].
+  cbn [combine forallb fst snd] in *. apply andb_true_iff in H. destruct H as [-> H]. now apply IH.
+Qed.
+
+Lemma nsc_facts2 x : eval spec_NameStartChar x = true ->
+  N.eqb x c_bang = false /\ N.eqb x c_qm = false /\ N.eqb x c_slash = false.
+Proof.
+  intros H. repeat split.
+  - destruct (N.eqb_spec x c_bang) as [->|]; [discriminate|reflexivity].
+  - destruct (N.eqb_spec x c_qm) as [->|]; [discriminate|reflexivity].
+  - destruct (N.eqb_spec x c_slash) as [->|]; [discriminate|reflexivity].
+Qed.
+
+(** the tag, read by [p_tag]: [closing] is ">" or "/>" *)
+Lemma p_tag_render c p nm atts :
+  is_Name nm = true -> forallb att_ok atts = true ->
+  exists parsed, forall closing e rest extra,
+    (closing = [c_gt] /\ e = false) \/ (closing = s_empty_close /\ e = true) ->
+    p_tag (atts_size (permute c (0%N :: p) 0 (combine (seq 0 (length atts)) atts) []) + extra)
+          (tl (render_open c p nm atts) ++ closing ++ rest) = Some (nm, parsed, e, rest).
+Proof.
+  intros Hn Ha. unfold render_open. cbn [tl].
+  set (atts' := permute c (0%N :: p) 0 (combine (seq 0 (length atts)) atts) []).
+  assert (Ha' : forallb (fun ia => att_ok (snd ia)) atts' = true).
+  { unfold atts'. rewrite forallb_permute. cbn [forallb]. rewrite andb_true_r. now apply forallb_combine_snd. }
+  destruct (p_atts_render c p atts' Ha') as (parsed & _ & Hp).
+  exists parsed. intros closing e rest extra Hcl. specialize (Hp closing e rest extra Hcl).
+  unfold p_tag. rewrite <- !app_assoc.
+  assert (En : p_Name (nm ++ flat_map (render_att c p) atts' ++ S0 c (2%N :: p) ++ closing ++ rest)
+               = Some (nm, flat_map (render_att c p) atts' ++ S0 c (2%N :: p) ++ closing ++ rest)).
+  { apply p_Name_app; [exact Hn|].
+    destruct atts' as [|ia l].
+    - cbn [flat_map app]. destruct (S0 c (2%N :: p)) as [|w ws] eqn:Ew.
+      + cbn [app]. destruct Hcl as [[-> _]|[-> _]]; reflexivity.
+      + cbn [app stops_name]. apply isS_not_namechar. pose proof (S0_S c (2%N :: p)) as HS. rewrite Ew in HS.
+        cbn [forallb] in HS. apply andb_true_iff in HS. tauto.
+    - cbn [flat_map]. unfold render_att at 1. rewrite <- !app_assoc.
+      destruct (S1 c (0%N :: N.of_nat (fst ia) :: 1%N :: p)) as [|w ws] eqn:Ew; [now elim (S1_ne c (0%N :: N.of_nat (fst ia) :: 1%N :: p))|].
+      cbn [app stops_name]. apply isS_not_namechar. pose proof (S1_S c (0%N :: N.of_nat (fst ia) :: 1%N :: p)) as HS. rewrite Ew in HS.
+      cbn [forallb] in HS. apply andb_true_iff in HS. tauto. }
+  unfold str, char in *. rewrite En. cbn [bind]. rewrite Hp. reflexivity.
+Qed.
+
+Lemma pc_elem f x t Y item r : eval spec_NameStartChar x = true ->
+  p_element_with (p_content f) f ((x :: t) ++ Y) = Some (item, r) ->
+  p_content (S f) (c_lt :: (x :: t) ++ Y) = bind (p_content f r) (fun '(l, rest) => Some (item :: l, rest)).
+Proof.
+  intros Hx He. destruct (nsc_facts2 x Hx) as (Hb & Hq & Hs).
+  cbn [app p_content]. rewrite N.eqb_refl. cbv iota.
+  assert (H1 : starts s_etag_open (c_lt :: x :: t ++ Y) = false).
+  { unfold starts, s_etag_open. cbn [strip]. change (N.eqb 60 c_lt) with true. cbv iota. rewrite (N.eqb_sym 47 x). fold c_slash. now rewrite Hs. }
+  assert (H2 : strip s_comment_open (c_lt :: x :: t ++ Y) = None).
+  { unfold s_comment_open. cbn [strip]. change (N.eqb 60 c_lt) with true. cbv iota. rewrite (N.eqb_sym 33 x). fold c_bang. now rewrite Hb. }
+  assert (H3 : strip s_cdata_open (c_lt :: x :: t ++ Y) = None).
+  { unfold s_cdata_open. cbn [strip]. change (N.eqb 60 c_lt) with true. cbv iota. rewrite (N.eqb_sym 33 x). fold c_bang. now rewrite Hb. }
+  assert (H4 : strip s_pi_open (c_lt :: x :: t ++ Y) = None).
+  { unfold s_pi_open. cbn [strip]. change (N.eqb 60 c_lt) with true. cbv iota. rewrite (N.eqb_sym 63 x). fold c_qm. now rewrite Hq. }
+  cbn [app] in He. unfold str, char in *. rewrite H1, H2, H3, H4, He. cbn [bind]. reflexivity.
+Qed.
+
+Lemma p_etag_render c p nm T : is_Name nm = true -> p_etag (nm ++ S0 c p ++ [c_gt] ++ T) = Some (nm, T).
+Proof.
+  intros Hn. unfold p_etag.
+  assert (En : p_Name (nm ++ S0 c p ++ [c_gt] ++ T) = Some (nm, S0 c p ++ [c_gt] ++ T)).
+  { apply p_Name_app; [exact Hn|]. destruct (S0 c p) as [|w ws] eqn:Ew; [reflexivity|].
+    cbn [app stops_name]. apply isS_not_namechar. pose proof (S0_S c p) as HS. rewrite Ew in HS. cbn [forallb] in HS.
+    apply andb_true_iff in HS. tauto. }
+  assert (Es : skipS (S0 c p ++ [c_gt] ++ T) = [c_gt] ++ T) by (apply skipS_run; [apply S0_S|reflexivity]).
+  unfold str, char in *. rewrite En. cbn [bind]. rewrite Es. cbn [app]. now rewrite N.eqb_refl.
+Qed.
+
+Lemma pc_etag_stop fuel Y : p_content (S fuel) (s_etag_open ++ Y) = Some ([], s_etag_open ++ Y).
+Proof. reflexivity. Qed.
+
+Lemma render_head c p y : match y with AText _ => False | _ => True end ->
+  exists h r, render_node c p y = h :: r /\ (h = c_lt \/ h = c_amp).
+Proof.
+  destruct y as [s|nm|s|t d|nm atts kids]; intros H; try now elim H.
+  - exists c_amp, (nm ++ [c_semi]). auto.
+  - eexists; eexists; split; [reflexivity|auto].
+  - eexists; eexists; split; [reflexivity|auto].
+  - rewrite render_node_elem. unfold render_open.
+    destruct kids; [destruct (N.eqb _ _)|]; eexists; eexists; (split; [reflexivity|auto]).
+Qed.
+
+Lemma follow_of_head h r : h = c_lt \/ h = c_amp -> follow_ok (h :: r).
+Proof. intros H; exact H. Qed.
+
+(** induction on abstract nodes with the children *)
+Lemma anode_ind2 (P : anode -> Prop) :
+  (forall s, P (AText s)) -> (forall nm, P (ARef nm)) -> (forall s, P (AComment s)) -> (forall t d, P (API t d)) ->
+  (forall nm atts kids, Forall P kids -> P (AElem nm atts kids)) -> forall x, P x.
+Proof.
+  intros H1 H2 H3 H4 H5. fix F 1. intros [s|nm|s|t d|nm atts kids]; [apply H1|apply H2|apply H3|apply H4|].
+  apply H5. induction kids as [|y l IH]; constructor; [apply F|exact IH].
+Qed.
+
+Definition parses (c : choices) (p : list N) (x : anode) : Prop :=
+  exists items n m, forall fuel T, match x with AText _ => follow_ok T | _ => True end ->
+    p_content (n + fuel) (render_node c p x ++ T) =
+    bind (p_content (m + fuel) T) (fun '(l, r) => Some (items ++ l, r)).
+
+Lemma kids_parse c p : forall kids, Forall (fun y => syn_ok y = true -> forall c p, parses c p y) kids ->
+  forallb syn_ok kids = true -> no_adjacent_text kids = true -> forall i,
+  exists items n m, forall fuel T, follow_ok T ->
+    p_content (n + fuel) (render_kids c p i kids ++ T) =
+    bind (p_content (m + fuel) T) (fun '(l, r) => Some (items ++ l, r)).
+Proof.
+  induction kids as [|y t IH]; intros HF Hok Hadj i.
+  - exists [], 0, 0. intros fuel T _. cbn [render_kids app Nat.add]. destruct (p_content fuel T) as [[l r]|]; reflexivity.
+  - inversion HF as [|y' t' Hy Ht]; subst. cbn [forallb] in Hok. apply andb_true_iff in Hok. destruct Hok as [Hoy Hot].
+    assert (Hadj_t : no_adjacent_text t = true).
+    { destruct y; cbn [no_adjacent_text] in Hadj; try exact Hadj. destruct t as [|z t']; [reflexivity|]. destruct z; try exact Hadj; discriminate. }
+    destruct (IH Ht Hot Hadj_t (i + 1)%N) as (its & nt & mt & Ht').
+    destruct (Hy Hoy c (i :: 5%N :: p)) as (iy & ny & my & Hy').
+    exists (iy ++ its), (ny + nt), (mt + my). intros fuel T HT. cbn [render_kids]. rewrite <- app_assoc.
+    replace (ny + nt + fuel) with (ny + (nt + fuel)) by lia.
+    rewrite Hy'.
+    + replace (my + (nt + fuel)) with (nt + (my + fuel)) by lia. rewrite (Ht' (my + fuel) T HT).
+      replace (mt + (my + fuel)) with (mt + my + fuel) by lia.
+      destruct (p_content (mt + my + fuel) T) as [[l r]|]; cbn [bind]; [now rewrite app_assoc|reflexivity].
+    + destruct y as [s| | | |]; try exact I.
+      destruct t as [|z t']; [cbn [render_kids app]; exact HT|].
+      assert (Hz : match z with AText _ => False | _ => True end) by (destruct z; try exact I; discriminate).
+      destruct (render_head c ((i + 1)%N :: 5%N :: p) z Hz) as (h & r & Eh & Hh).
+      cbn [render_kids]. rewrite Eh. cbn [app]. exact Hh.
+Qed.
+
+Theorem node_parses : forall x, syn_ok x = true -> forall c p, parses c p x.
+Proof.
+  induction x as [s|nm|s|t d|nm atts kids IHk] using anode_ind2; intros Hok c p; unfold parses; cbn [syn_ok] in Hok.
+  - (* character data *)
+    destruct (text_reads_back c p (S (length s)) 0%N c_rbr s Hok ltac:(lia)) as (items & n & _ & Hrun).
+    exists items, n, 0. intros fuel T HT. cbn [render_node Nat.add]. now apply Hrun.
+  - exists [XEntRef nm], 1, 0. intros fuel T _. cbn [render_node Nat.add app]. now apply pc_entref.
+  - exists [XComment s], 1, 0. intros fuel T _. cbn [render_node Nat.add app]. now apply pc_comment.
+  - exists [XPI t d], 1, 0. intros fuel T _. cbn [render_node Nat.add app]. now apply pc_pi.
+  - (* element *)
+    apply andb_true_iff in Hok. destruct Hok as [Hok Hadj]. apply andb_true_iff in Hok. destruct Hok as [Hok Hkids].
+    apply andb_true_iff in Hok. destruct Hok as [Hn Hatts].
+    destruct (name_head nm Hn) as (x & t & -> & Hx).
+    set (A := atts_size (permute c (0%N :: p) 0 (combine (seq 0 (length atts)) atts) [])).
+    destruct (kids_parse c p kids IHk Hkids Hadj 0%N) as (kitems & nk & mk & Hk).
+    destruct (p_tag_render c p (x :: t) atts Hn Hatts) as (parsed & Htag). fold A in Htag.
+    rewrite render_node_elem.
+    set (after := flat_map (render_att c p) (permute c (0%N :: p) 0 (combine (seq 0 (length atts)) atts) []) ++ S0 c (2%N :: p)).
+    assert (Hopen : forall Z, render_open c p (x :: t) atts ++ Z = c_lt :: (x :: t) ++ (after ++ Z)).
+    { intros Z. unfold render_open, after. cbn [app]. now rewrite <- !app_assoc. }
+    assert (Htl : forall Z, tl (render_open c p (x :: t) atts) ++ Z = (x :: t) ++ (after ++ Z)).
+    { intros Z. unfold render_open, after. cbn [tl app]. now rewrite <- !app_assoc. }
+    (* the start/end pair around some content K whose parse is known *)
+    assert (Hpair : forall K items' n' m', 
+              (forall fuel T, follow_ok T -> p_content (n' + fuel) (K ++ T) = bind (p_content (m' + fuel) T) (fun '(l, r) => Some (items' ++ l, r))) ->
+              forall fuel T,
+              p_content (S (A + n' + S fuel)) ((render_open c p (x :: t) atts ++ [c_gt] ++ K ++ s_etag_open ++ (x :: t) ++ S0 c (4%N :: p) ++ [c_gt]) ++ T) =
+              bind (p_content (A + n' + S fuel) T) (fun '(l, r) => Some ([XElem (x :: t) parsed (Some (x :: t)) items'] ++ l, r))).
+    { intros K items' n' m' HK fuel T. rewrite <- !app_assoc. rewrite Hopen.
+      rewrite (pc_elem (A + n' + S fuel) x t _ (XElem (x :: t) parsed (Some (x :: t)) items') T Hx).
+      - destruct (p_content (A + n' + S fuel) T) as [[l r]|]; reflexivity.
+      - unfold p_element_with. rewrite <- Htl.
+        pose proof (Htag [c_gt] false (K ++ s_etag_open ++ (x :: t) ++ S0 c (4%N :: p) ++ [c_gt] ++ T) (n' + S fuel) (or_introl (conj eq_refl eq_refl))) as Ht.
+        replace (A + (n' + S fuel)) with (A + n' + S fuel) in Ht by lia.
+        pose proof (HK (A + S fuel) (s_etag_open ++ (x :: t) ++ S0 c (4%N :: p) ++ [c_gt] ++ T) (or_introl eq_refl)) as Hk2.
+        replace (n' + (A + S fuel)) with (A + n' + S fuel) in Hk2 by lia.
+        replace (m' + (A + S fuel)) with (S (m' + A + fuel)) in Hk2 by lia. rewrite pc_etag_stop in Hk2. cbn [bind] in Hk2. rewrite app_nil_r in Hk2.
+        pose proof (p_etag_render c (4%N :: p) (x :: t) T Hn) as Het.
+        pose proof (strip_app s_etag_open ((x :: t) ++ S0 c (4%N :: p) ++ [c_gt] ++ T)) as Hst.
+        unfold str, char in *. rewrite Ht. cbn [bind]. rewrite Hk2. cbn [bind]. rewrite Hst. cbn [bind]. rewrite Het. reflexivity. }
+    destruct kids as [|k0 kids'].
+    + destruct (N.eqb (N.modulo (c (3%N :: p)) 2) 0).
+      * (* empty-element tag *)
+        exists [XElem (x :: t) parsed None []], (S A), A. intros fuel T _. rewrite <- !app_assoc. rewrite Hopen.
+        rewrite (pc_elem (A + fuel) x t _ (XElem (x :: t) parsed None []) T Hx).
+        -- destruct (p_content (A + fuel) T) as [[l r]|]; reflexivity.
+        -- unfold p_element_with. rewrite <- Htl.
+           pose proof (Htag s_empty_close true T fuel (or_intror (conj eq_refl eq_refl))) as Ht.
+           unfold str, char in *. rewrite Ht. reflexivity.
+      * (* start tag immediately followed by the end tag *)
+        exists [XElem (x :: t) parsed (Some (x :: t)) []], (S (A + 0 + 1)), (A + 0 + 1). intros fuel T _.
+        replace (S (A + 0 + 1) + fuel) with (S (A + 0 + S fuel)) by lia. replace (A + 0 + 1 + fuel) with (A + 0 + S fuel) by lia.
+        apply (Hpair [] [] 0 0). intros fuel' T' _. cbn [app Nat.add]. destruct (p_content fuel' T') as [[l r]|]; reflexivity.
+    + exists [XElem (x :: t) parsed (Some (x :: t)) kitems], (S (A + nk + 1)), (A + nk + 1). intros fuel T _.
+      replace (S (A + nk + 1) + fuel) with (S (A + nk + S fuel)) by lia. replace (A + nk + 1 + fuel) with (A + nk + S fuel) by lia.
+      apply (Hpair (render_kids c p 0 (k0 :: kids')) kitems nk mk). exact Hk.
+Qed.
+
+(** ** the lexical conditions of [valid] imply the ones used above *)
+Lemma split_colon_app nm : forall p l, split_colon nm = Some (p, l) -> nm = p ++ colon :: l.
+Proof.
+  induction nm as [|ch t IH]; intros p l E; cbn [split_colon] in E; [discriminate|].
+  destruct (N.eqb_spec ch colon) as [->|Hc]; [injection E as <- <-; reflexivity|].
+  destruct (split_colon t) as [[p' l']|]; [|discriminate]. injection E as <- <-. cbn [app]. f_equal. now apply IH.
+Qed.
+
+Lemma forallb_app_true {A} (f : A -> bool) a b : forallb f a = true -> forallb f b = true -> forallb f (a ++ b) = true.
+Proof. intros Ha Hb. induction a as [|x a IH]; [exact Hb|]. cbn [forallb app] in *. apply andb_true_iff in Ha. destruct Ha as [-> Ha]. now apply IH. Qed.
+
+Lemma NCName_Name nm : is_NCName nm = true -> is_Name nm = true.
+Proof. unfold is_NCName. intros H. apply andb_true_iff in H. tauto. Qed.
+
+Lemma nsc_nc x : eval spec_NameStartChar x = true -> eval spec_NameChar x = true.
+Proof. intros H. unfold spec_NameChar. cbn [eval]. now rewrite H. Qed.
+
+Lemma QName_Name nm : is_QName nm = true -> is_Name nm = true.
+Proof.
+  unfold is_QName. destruct (split_colon nm) as [[p l]|] eqn:E; [|apply NCName_Name].
+  intros H. apply andb_true_iff in H. destruct H as [Hp Hl].
+  apply NCName_Name in Hp. apply NCName_Name in Hl. apply split_colon_app in E. subst nm.
+  unfold is_Name in *. destruct p as [|x p]; [discriminate|]. destruct l as [|y l]; [discriminate|].
+  apply andb_true_iff in Hp. destruct Hp as [Hx Hp]. apply andb_true_iff in Hl. destruct Hl as [Hy Hl].
+  cbn [app]. apply andb_true_iff. split; [exact Hx|].
+  apply forallb_app_true; [exact Hp|]. cbn [forallb]. apply andb_true_iff. split; [reflexivity|].
+  apply andb_true_iff. split; [now apply nsc_nc|exact Hl].
+Qed.
+
+Lemma node_ok_syn : forall x, node_ok x = true -> syn_ok x = true.
+Proof.
+  induction x as [s|nm|s|t d|nm atts kids IHk] using anode_ind2; cbn [node_ok syn_ok]; intros H; try exact H.
+  - now apply NCName_Name.
+  - apply andb_true_iff in H. destruct H as [H Hadj]. apply andb_true_iff in H. destruct H as [H Hk].
+    apply andb_true_iff in H. destruct H as [Hn Ha].
+    apply andb_true_iff. split; [|exact Hadj]. apply andb_true_iff. split.
+    + apply andb_true_iff. split; [now apply QName_Name|].
+      rewrite forallb_forall in *. intros a Hin. specialize (Ha a Hin). unfold att_ok.
+      apply andb_true_iff in Ha. destruct Ha as [Ha1 Ha2]. apply andb_true_iff. split; [now apply QName_Name|exact Ha2].
+    + rewrite forallb_forall in *. rewrite Forall_forall in IHk. intros y Hin. apply IHk; [exact Hin|now apply Hk].
+Qed.
+
+(** every node that passes the lexical conditions of [valid] is read back by [p_content], for every oracle *)
+Corollary valid_node_parses : forall x, node_ok x = true -> forall c p, parses c p x.
+Proof. intros x H. apply node_parses, node_ok_syn, H. Qed.
